@@ -71,10 +71,23 @@ def network(args):
     nedges = rng.randint(K - 1, K + 1)
     legs = [[] for _ in range(K)]        # per tensor: list of (label, signature)
     lab = 0
+    # one network in four is DISCONNECTED (outer product of two pieces, contracted last whatever the order): pieces with different numbers of open legs and swaps between
+    # open legs of different pieces
+    cut = rng.randrange(K - 1) if (not fixed and K >= 2 and rng.random() < 0.25) else None
     for e in range(nedges):
         lab += 1
+        if e == cut:
+            lab -= 1
+            continue
         if e < K - 1:
-            i, j = e, e + 1                # a chain keeps the network connected
+            i, j = e, e + 1                # a chain keeps the network (or each of its two pieces) connected
+        elif cut is not None:
+            pick_left = rng.random() < 0.5
+            side = [k for k in range(K) if (k <= cut) == pick_left]
+            i, j = rng.choice(side), rng.choice(side)
+            if i == j and len(legs[i]) >= 3:
+                lab -= 1
+                continue
         else:
             i, j = rng.randrange(K), rng.randrange(K)
             if i == j and len(legs[i]) >= 3:
@@ -95,7 +108,7 @@ def network(args):
                 legs[i].append((l, sg))
     nopen = 0
     for i in range(K):
-        while not fixed and len(legs[i]) < rng.choice((2, 3)) and len(legs[i]) < 4:
+        while not fixed and len(legs[i]) < (rng.choice((2, 3)) if cut is None else (rng.choice((1, 2)) if i <= cut else rng.choice((3, 4)))) and len(legs[i]) < 4:
             legs[i].append((-nopen, rng.choice((1, -1))))
             nopen += 1
         if not fixed:
@@ -124,6 +137,12 @@ def network(args):
     labels = sorted({l for q in inds for l in q})
     pos = [l for l in labels if l > 0]
     swaps = [list(x) for x in fixed[3]] if fixed else []
+    if cut is not None:
+        left = [l for i in range(K) if i <= cut for l, _ in legs[i] if l <= 0]
+        right = [l for i in range(K) if i > cut for l, _ in legs[i] if l <= 0]
+        for _ in range(rng.choice((1, 2))):
+            if left and right:
+                swaps.append([rng.choice(left), rng.choice(right)])
     for _ in range(rng.choice((0, 1, 2, 3)) if not fixed else 0):
         x, y = rng.choice(labels), rng.choice(labels)
         if x != y:
